@@ -3,7 +3,7 @@ from __future__ import annotations
 from ..model import load_model
 from ..harness import build, run_paths
 from ..evalengine import pmap
-from ..simpengine import rule_inputs, variable_free_inputs, reduce_trace, applicable_rules
+from ..simpengine import rule_inputs, variable_free_inputs, reduce_trace, applicable_rules, random_trees
 from ..derivengine import obj_to_tree, _strip_sym
 from ..termination import check_certificate_step, tree_size
 from .. import spec
@@ -59,7 +59,7 @@ def term_case(args):
         return out
     seq = tr["seq"]
     out["warnings"] = tr["warnings"]
-    forms = [t for (_w, t, _r) in seq[:-1] if t is not None]     # the rewrite sequence proper
+    forms = [e[1] for e in seq[:-1] if e[1] is not None]     # the rewrite sequence proper
     out["n_steps"] = len(forms) - 1
     out["driver_calls"] = tr["end"][1] if tr["end"] else None
     seen = {}
@@ -67,13 +67,14 @@ def term_case(args):
         key = repr(t)
         if key in seen:
             out["revisit"] = {"first": seen[key], "again": i, "form": seq[i][2],
-                              "via": [w for (w, _t, _r) in seq[seen[key] + 1:i + 1]]}
+                              "via": [e[0] for e in seq[seen[key] + 1:i + 1]]}
             break
         seen[key] = i
     if seq[-2][1] is None:
         out["unfinished"] = True
     cert = []
-    for (w0, a, ra), (w, b, rb) in zip(seq, seq[1:-1]):
+    for e0, e1 in zip(seq, seq[1:-1]):
+        (w0, a, ra), (w, b, rb) = e0[:3], e1[:3]
         if a is None or b is None:
             break
         ok, why = check_certificate_step(a, b)
@@ -96,6 +97,7 @@ def check(rep):
     model = load_model()
     tier = rep.tier
     inputs = rule_inputs(model, tier) + variable_free_inputs(model) + families()
+    inputs += random_trees(rep.seed, 60 if tier == "quick" else 600, 30 if tier == "quick" else 80)
     results = pmap(term_case, inputs, chunksize=8)
     per = {}
     max_ratio = 0.0
